@@ -1973,7 +1973,16 @@ class _PipelineAsFunc:
             The return value of the pipeline function.
 
         """
-        return self.pipeline.run(self.output_name, full_output=True, kwargs=kwargs)
+        results = self.pipeline.run(self.output_name, full_output=True, kwargs=kwargs)
+        if isinstance(self.output_name, tuple):
+            # A multi-output function that is requested as a whole is stored under its
+            # tuple name only; add the individual outputs so that every name is present.
+            func = self.pipeline.output_to_func[self.output_name]
+            assert func.output_picker is not None
+            for name in self.output_name:
+                if name not in results:
+                    results[name] = func.output_picker(results[self.output_name], name)
+        return results
 
     def call_with_dict(self, kwargs: dict[str, Any]) -> Any:
         """Call the pipeline function with the given arguments.
